@@ -41,6 +41,7 @@ def effective_known(j, known):
     """Known paths plus the functions that took the place of a known function that no longer exists
     (same parent module / impl, same signature): a rename keeps the function a unit of analysis."""
     eff = set(known)
+    renamed = {}
     cur = {}
     for f in j.get('fns', []):
         cur.setdefault(strip_crate(f['path']), {'sig': f.get('sig'), 'parent': strip_crate(f.get('parent') or '')})
@@ -55,8 +56,9 @@ def effective_known(j, known):
             if known[m]['parent'] == info['parent'] and known[m]['sig'] == info['sig']:
                 used.add(m)
                 eff.add(path)
+                renamed[m] = path
                 break
-    return eff
+    return eff, renamed
 
 
 def _shift_place(pl, off_l):
@@ -461,11 +463,73 @@ def _referenced(bodies, lookup):
     return refs
 
 
+def _strip_generics(name):
+    out = []
+    depth = 0
+    i = 0
+    while i < len(name):
+        ch = name[i]
+        if ch == '<':
+            depth += 1
+        elif ch == '>':
+            depth -= 1
+        elif depth == 0:
+            out.append(ch)
+        i += 1
+    return ''.join(out).replace('::::', '::')
+
+
+def rename_back(j, renamed):
+    """A function recognised as a rename of a known one is given its known name back, everywhere in the facts
+    (bodies, callees, fn table, closures nested in it): the rules name the functions of the tree they were
+    confirmed on, and a rename is not a change of behaviour."""
+    if not renamed:
+        return
+    import re as _re
+    pairs = []
+    for old, new in renamed.items():
+        ol, nl = old.split('::')[-1], new.split('::')[-1]
+        if ol == nl or new.startswith('<'):
+            continue
+        pairs.append((new, old, nl, ol))
+    if not pairs:
+        return
+    def fix(v):
+        if not isinstance(v, str) or '::' not in v:
+            return v
+        sv = _strip_generics(strip_crate(v))
+        for (new, old, nl, ol) in pairs:
+            if sv == new or sv.startswith(new + '::') or sv.endswith('::' + new) or ('::' + new + '::') in sv:
+                return _re.sub(r'(?<=::)' + _re.escape(nl) + r'(?=$|::)', ol, v, count=1)
+        return v
+    KEYS = ('path', 'name', 'orig', 'orig_name', 'parent', 'named', 'anon_of')
+    def visit(o):
+        if isinstance(o, dict):
+            for k, v in list(o.items()):
+                if k in KEYS and isinstance(v, str):
+                    o[k] = fix(v)
+                else:
+                    visit(v)
+        elif isinstance(o, list):
+            for x in o:
+                visit(x)
+    for b in j.get('instances', []) + j.get('poly', []):
+        for k in KEYS:
+            if isinstance(b.get(k), str):
+                b[k] = fix(b[k])
+        visit(b['blocks'])
+    for f in j.get('fns', []) + j.get('roots', []) + j.get('consts', []):
+        for k in KEYS:
+            if isinstance(f.get(k), str):
+                f[k] = fix(f[k])
+
+
 def inline_unknown(j, known):
     """Mutates facts json j. Returns dict(inlined=[paths], dropped=[paths])."""
     if known is None or j.get('crate') != 'mrecordlog':
         return {'inlined': [], 'dropped': []}
-    known = effective_known(j, known)
+    known, renamed = effective_known(j, known)
+    rename_back(j, renamed)
     report = {'inlined': set(), 'dropped': set()}
     # instances: callee.node = id
     inst = j['instances']
@@ -502,4 +566,4 @@ def inline_unknown(j, known):
         for b in drop:
             report['dropped'].add(strip_crate(b['path']))
             poly.remove(b)
-    return {'inlined': sorted(report['inlined']), 'dropped': sorted(report['dropped'])}
+    return {'inlined': sorted(report['inlined']), 'dropped': sorted(report['dropped']), 'renamed': renamed}
